@@ -103,6 +103,7 @@ namespace sim
     void* start_arg = nullptr;
     void* retval = nullptr;
     uint64_t prio = 0;
+    int parent = -1;             // creating task (thread seam only)
   };
 
   struct Event
@@ -154,6 +155,7 @@ namespace sim
 
   bool active() { return W != nullptr && W->running && t_task != nullptr && !t_in_model; }
   int self() { return t_task ? t_task->id : -1; }
+  int parent_of(int task) { return (W && task >= 0 && task < int(W->tasks.size())) ? W->tasks[size_t(task)]->parent : -1; }
   int num_tasks() { return W ? int(W->tasks.size()) : 0; }
   const Options& options() { return W->opt; }
   static uint64_t g_run_serial = 0;
@@ -656,6 +658,7 @@ namespace sim
     t->start = start;
     t->start_arg = arg;
     t->via_seam = true;
+    t->parent = t_task->id;
     ++t_task->vc[size_t(t_task->id)];
     t->vc = t_task->vc;
     t->vc[size_t(t->id)] = 0;
